@@ -667,6 +667,29 @@ def run(ctx):
             ok_enl = False
     ctx.expect(ok_enl and len(enl) <= 1, "R18.5", "__getitem__[enlargement]",
                "the limit is raised only when the requested set alone exceeds it", gi.loc(enl[0]) if enl else gi.loc())
+    # ... and "the requested set" is every path the request returns (hits included): the size compared with the limit is the total
+    # size of the returned list, so that the eviction that follows cannot be forced to delete a file of the current request
+    from .fc import returned_name as _rn
+    rname = _rn(gi.node)
+    for e in enl:
+        anc = [n for n in own_walk(gi.node) if isinstance(n, ast.If) and e in [x for b in n.body for x in ast.walk(b)]]
+        sized = None
+        for a_ in anc:
+            for x in ast.walk(a_.test):
+                if isinstance(x, ast.Name):
+                    defs = [d for d in la_gi.get(x.id, []) if d[0] == "assign"] if (la_gi := local_assignments(gi.node)) else []
+                    if len(defs) == 1 and isinstance(defs[0][1], ast.Call) and "size" in call_name(defs[0][1]).lower() and defs[0][1].args:
+                        sized = defs[0][1].args[0]
+        if sized is None or rname is None:
+            ctx.unsure("R18.5", "__getitem__[requested set]", "the size compared with the limit is not the size of one list of paths",
+                       gi.loc(e))
+        else:
+            sized_e = _sdef(gi.node, sized, {"self"})
+            names = {x.id for x in ast.walk(sized_e) if isinstance(x, ast.Name)}
+            verdict = True if (isinstance(sized, ast.Name) and sized.id == rname) else (False if rname not in names else None)
+            ctx.expect(verdict, "R18.5", "__getitem__[requested set]",
+                       "the size that decides on enlarging the cache is the total size of every path the request returns (files already "
+                       "in the cache included), not of a part of them", gi.loc(e), derived=ast.unparse(sized), required=rname)
     # the new limit must exceed the request by a margin: the byte limit is stored as a floating point number of gigabytes and read
     # back through int(gb * GIGABYTE), which truncates - without slack the limit can come back one byte below the request, and the
     # eviction that follows (strictly `size > limit`) deletes the files that were just returned
